@@ -27,7 +27,7 @@ func C20(c *Ctx) {
 		"(A12) pagination-callback idiom on go/ssa CFGs: in every closure passed to query.FilteredPaginate the append to the result is guarded by `accumulate`, no non-error return is control- or data-dependent on `accumulate` (so counting pages and collecting pages see the same hits), the appended element is the decoded `value`, and every `false` return is guarded by a predicate over the request; " +
 		"for GenericFilteredPaginate callbacks a nil result is returned only under a request-dependent filter and the returned item carries the decoded value; " +
 		"(A7) every store section is encoded and decoded with one single Go type across all writers, getters, iterators and paginated queries, and the prefix store handed to a paginator is the section its callback decodes. Structural necessary conditions; SDK paginator correctness is trusted."
-	r.Rules = []string{"A1.query-readonly", "A12.accumulate-guard", "A12.hit-independent-of-accumulate", "A12.element", "A12.filter-only-drop", "A7.section-type"}
+	r.Rules = []string{"A1.query-readonly", "A12.accumulate-guard", "A12.hit-independent-of-accumulate", "A12.element", "A12.item-identity", "A12.filter-only-drop", "A7.section-type"}
 	r.Trusted = []string{"cosmos-sdk types/query FilteredPaginate / GenericFilteredPaginate semantics", "codec (Must)Unmarshal decodes what (Must)Marshal encoded for the same type"}
 	r.NotDecided = []string{"cross-page completeness as behaviour", "bank keeper pagination used by TotalSupply"}
 
@@ -314,6 +314,205 @@ func genericPaginateCallback(c *Ctx, parent *ssa.Function, call *ssa.Call, cb *s
 			}
 		}
 		r.Require(carries, "A12.element", rk, pos(c, ret), "the returned list item carries the value decoded for this key", "result "+e.String())
+		itemIdentity(c, parent, cb, ret, rk)
+	}
+}
+
+// streamItemIdentity runs the item-identity rule on every GenericFilteredPaginate callback of the stream
+// module (used by C18, whose last clause it is; C20 runs it as part of its callback rules).
+func streamItemIdentity(c *Ctx) int {
+	w := c.W
+	n := 0
+	for _, f := range w.Funcs {
+		if w.IsGenerated(f) || ir.IsFixture(f) || ir.ModuleOf(f) != "stream" {
+			continue
+		}
+		for _, b := range f.Blocks {
+			for _, in := range b.Instrs {
+				call, ok := in.(*ssa.Call)
+				if !ok {
+					continue
+				}
+				sc := call.Common().StaticCallee()
+				if sc == nil || ir.FnPkg(sc) == nil || ir.FnPkg(sc).Path() != "github.com/cosmos/cosmos-sdk/types/query" {
+					continue
+				}
+				name := sc.Name()
+				if o := sc.Origin(); o != nil {
+					name = o.Name()
+				}
+				if name != "GenericFilteredPaginate" {
+					continue
+				}
+				cb := closureArg(call.Common().Args[3])
+				if cb == nil {
+					continue
+				}
+				for i, ret := range ir.Returns(cb) {
+					if len(ret.Results) != 2 || w.ProvablyNonNil(cb, ret, ret.Results[1]) {
+						continue
+					}
+					if cst, ok := ret.Results[0].(*ssa.Const); ok && cst.Value == nil {
+						continue
+					}
+					n++
+					itemIdentity(c, f, cb, ret, fmt.Sprintf("%s|return%d", fn(cb), i))
+				}
+			}
+		}
+	}
+	return n
+}
+
+// heapFields: the fields stored into a struct allocated by v (an allocation in f, or the result of an
+// in-scope constructor called by f), in f's terms.
+func heapFields(c *Ctx, f *ssa.Function, v ssa.Value, depth int) map[string]*ir.Expr {
+	w := c.W
+	out := map[string]*ir.Expr{}
+	switch x := v.(type) {
+	case *ssa.Alloc:
+		if refs := x.Referrers(); refs != nil {
+			for _, rf := range *refs {
+				if fa, ok := rf.(*ssa.FieldAddr); ok {
+					if frefs := fa.Referrers(); frefs != nil {
+						for _, sr := range *frefs {
+							if st, ok := sr.(*ssa.Store); ok && st.Addr == ssa.Value(fa) {
+								out[ir.FieldName(fa.X.Type(), fa.Field)] = w.ExprOf(st.Val)
+							}
+						}
+					}
+				}
+			}
+		}
+	case *ssa.Call:
+		if depth > 2 {
+			return out
+		}
+		gs := w.CalleesOf(x)
+		if len(gs) != 1 || len(gs[0].Blocks) == 0 {
+			return out
+		}
+		g := gs[0]
+		for _, ret := range ir.Returns(g) {
+			if len(ret.Results) == 0 {
+				continue
+			}
+			for k, e := range heapFields(c, g, ret.Results[0], depth+1) {
+				out[k] = w.ArgSubst(x, g, e)
+			}
+		}
+	case *ssa.Phi:
+		for _, e := range x.Edges {
+			for k, v2 := range heapFields(c, f, e, depth) {
+				out[k] = v2
+			}
+		}
+	}
+	return out
+}
+
+// freeVarBinding: the origin (in parent's terms) of the value a closure's free variable is bound to.
+func freeVarBinding(c *Ctx, parent, cb *ssa.Function, e *ir.Expr) string {
+	if e == nil || e.Op != "free" {
+		return ""
+	}
+	idx := -1
+	for i, fv := range cb.FreeVars {
+		if fv.Name() == e.Name {
+			idx = i
+		}
+	}
+	if idx < 0 {
+		return ""
+	}
+	for _, b := range parent.Blocks {
+		for _, in := range b.Instrs {
+			mc, ok := in.(*ssa.MakeClosure)
+			if !ok || mc.Fn != ssa.Value(cb) || idx >= len(mc.Bindings) {
+				continue
+			}
+			bv := mc.Bindings[idx]
+			if al, ok := bv.(*ssa.Alloc); ok {
+				if refs := al.Referrers(); refs != nil {
+					for _, rf := range *refs {
+						if st, ok := rf.(*ssa.Store); ok && st.Addr == ssa.Value(al) {
+							return c.W.ExprOf(st.Val).String()
+						}
+					}
+				}
+				return ""
+			}
+			return c.W.ExprOf(bv).String()
+		}
+	}
+	return ""
+}
+
+// itemIdentity (A12.item-identity): a listed stream is reported with exactly the parties of its key. The
+// Sender / Receiver of a returned item must be (a) the address the key parser extracted from this entry's key,
+// or (b) a requested address that the callback has compared for equality with the parsed one (the item is
+// returned only on the edge where that comparison holds), or (c) the address the iterated prefix store was
+// opened with (every key under it belongs to that party). A request address admitted by any weaker test (a
+// suffix or prefix match on the raw key bytes) reports streams under a pair they were never created with.
+func itemIdentity(c *Ctx, parent, cb *ssa.Function, ret *ssa.Return, rk string) {
+	w, r := c.W, c.R
+	fields := heapFields(c, cb, ret.Results[0], 0)
+	for _, party := range []string{"Receiver", "Sender"} {
+		v, ok := fields[party]
+		if !ok {
+			continue
+		}
+		// <addr>.String()
+		addr := v
+		if addr.Op == "invoke" || addr.Op == "call" {
+			if strings.HasSuffix(addr.Name, ".String") && len(addr.Args) >= 1 {
+				addr = addr.Args[0]
+			}
+		}
+		isParsed := func(e *ir.Expr) bool {
+			mentionsParser := func(x *ir.Expr) bool {
+				return x.Any(func(z *ir.Expr) bool {
+					return z.Op == "call" && (strings.HasSuffix(z.Name, "types.ParseLengthPrefixedBytes") || strings.Contains(z.Name, "AddressesFromStreamKey") || strings.Contains(z.Name, "FirstAddressFromStreamStoreKey")) &&
+						z.Any(func(y *ir.Expr) bool { return y.Op == "param" && y.Name == cb.Params[0].Name() })
+				})
+			}
+			if mentionsParser(e) {
+				return true
+			}
+			x := w.Expand(e, 3)
+			return x.Any(func(z *ir.Expr) bool {
+				return z.Op == "call" && (strings.HasSuffix(z.Name, "types.ParseLengthPrefixedBytes") || strings.Contains(z.Name, "AddressesFromStreamKey") || strings.Contains(z.Name, "FirstAddressFromStreamStoreKey")) &&
+					z.Any(func(y *ir.Expr) bool { return y.Op == "param" && y.Name == cb.Params[0].Name() })
+			})
+		}
+		okID := isParsed(addr)
+		why := "parsed from the entry's key"
+		if !okID {
+			// (b) compared for equality with the parsed address on every path to this return
+			okID = w.Guarded(cb, ret, func(p ir.Pred) bool {
+				if !p.Pol || !(p.E.Op == "call" || p.E.Op == "invoke") || !strings.HasSuffix(p.E.Name, "AccAddress).Equals") || len(p.E.Args) != 2 {
+					return false
+				}
+				a, b := p.E.Args[0], p.E.Args[1]
+				return isParsed(a) && b.String() == addr.String() || isParsed(b) && a.String() == addr.String()
+			}, 1)
+			why = "compared for equality with the parsed address"
+		}
+		if !okID {
+			// (c) the prefix store iterated was opened with this address
+			bound := freeVarBinding(c, parent, cb, addr)
+			for _, ps := range prefixStores(c, parent) {
+				if w.Expand(ps, 1).Any(func(z *ir.Expr) bool {
+					// the same value, or the very variable the closure captured
+					return bound != "" && z.String() == bound || addr.Op == "free" && z.Op == "captured" && z.Name == addr.Name
+				}) {
+					okID = true
+					why = "the address the iterated prefix store was opened with"
+				}
+			}
+		}
+		_ = why
+		r.Require(okID, "A12.item-identity", rk+"|"+party, pos(c, ret), "the "+party+" reported for a listed stream is the one encoded in its key (parsed from it, proven equal to it, or the prefix iterated)", party+" = "+v.String())
 	}
 }
 
